@@ -97,6 +97,25 @@ def run_history(eng, rng, oc, allow_weird):
             before_files = W.user_files(d)
             old_index = W.dump_index(d)
             edited = {p: (edit_page(rng, t, allow_weird) if rng.random() < 0.8 else t) for p, t in before_files.items() if p.endswith(".zo")}
+            # a note (with its ZID) cut from one page and pasted, verbatim, below the last note of another: it is new to
+            # that page's index state and must not be stamped
+            zo = [p for p in edited if p.endswith(".zo")]
+            if len(zo) >= 2 and rng.random() < 0.35:
+                src, dst = rng.sample(zo, 2)
+                sl, dl = edited[src].split("\n"), edited[dst].split("\n")
+                cand = [i for i, l in enumerate(sl) if ITEM.match(l) and not (i + 1 < len(sl) and sl[i + 1].startswith("  "))]
+                last = [i for i, l in enumerate(dl) if ITEM.match(l)]
+                if cand and last:
+                    i = rng.choice(cand)
+                    j = last[-1] + 1
+                    while j < len(dl) and dl[j].startswith("  "):
+                        j += 1
+                    dl.insert(j, sl[i])
+                    del sl[i]
+                    if not any(re.match(r"[-ox~<>] ", l) for l in sl[max(0, i - 1):i + 1]) and i < len(sl) and sl[i] == "" and i > 0 and sl[i - 1] == "":
+                        del sl[i]      # the block became empty: do not leave two blank lines (harmless either way)
+                    edited[src], edited[dst] = "\n".join(sl), "\n".join(dl)
+                    oc.count("notes_moved_between_pages")
             write_tree(d, edited)
             compiled = W.compile_dir(d, day)
             with freeze_time(dt.datetime(day.year, day.month, day.day, 12)):
